@@ -248,6 +248,10 @@ func c03Gen(rnd *rand.Rand, i int) c03Case {
 	if rnd.Intn(6) == 0 {
 		c.Header = append(c.Header, [2]string{"Expires", "Wed, 21 Oct 2099 07:28:00 GMT"}, [2]string{"Last-Modified", "Wed, 21 Oct 2015 07:28:00 GMT"})
 	}
+	if rnd.Intn(7) == 0 {
+		// an upstream that labels its own responses (pike behind pike): the label the client sees must still be pike's own
+		c.Header = append(c.Header, [2]string{"X-Status", []string{"hit", "fetching", "passed", "hitForPass"}[rnd.Intn(4)]})
+	}
 	c.Header = append(c.Header, [2]string{"Content-Type", "text/plain"})
 	c.Burst = 1
 	if rnd.Intn(5) == 0 {
@@ -381,7 +385,7 @@ func c03Run(r *hx.Run, w *W, c c03Case) {
 }
 
 func c03(r *hx.Run) {
-	r.Rule = "one fresh URL per case: method from {GET,HEAD,POST,PUT,DELETE,PATCH,OPTIONS}, status from 12 codes, Cache-Control built from lifetime directives (values 0..20 digits), blocking directives, harmless/extension directives (incl. names that contain a directive name), random order, casing, separators, 1-3 header lines, quoted arguments, duplicates; Set-Cookie none/one/empty-then-real/two; Age valid/invalid; Expires/Last-Modified. The request (or a burst of 3) is followed by an identical one; an independent token-level predicate says whether the first response was shareable. Verdict only on stored => shareable, label truthfulness and exactly-once; the converse is counted. Non-trivial/distinct = distinct (class, header set) that was unshareable, or shareable and in fact stored."
+	r.Rule = "one fresh URL per case: method from {GET,HEAD,POST,PUT,DELETE,PATCH,OPTIONS}, status from 12 codes, Cache-Control built from lifetime directives (values 0..20 digits), blocking directives, harmless/extension directives (incl. names that contain a directive name), random order, casing, separators, 1-3 header lines, quoted arguments, duplicates; Set-Cookie none/one/empty-then-real/two; Age valid/invalid; Expires/Last-Modified; an upstream X-Status header of its own. The request (or a burst of 3) is followed by an identical one; an independent token-level predicate says whether the first response was shareable. Verdict only on stored => shareable, label truthfulness and exactly-once; the converse is counted. Non-trivial/distinct = distinct (class, header set) that was unshareable, or shareable and in fact stored."
 	r.Assume = []string{"virtual clock (static) so that storing is observable on the second request", "duplicate lifetime directives with different values, unparsable numbers and invalid Age are left unjudged (ambiguous)"}
 	rnd := rand.New(rand.NewSource(r.Seed))
 	port := hx.FreePorts(1)[0]
